@@ -163,6 +163,11 @@ class Verifier(Engine):
             if inspect.isclass(o):
                 return self.construct(st, o, args, kwargs)
             ext = '%s.%s' % (getattr(o, '__module__', ''), getattr(o, '__name__', ''))
+            if inspect.ismethod(o):
+                ext = '%s.%s' % (type(o.__self__).__module__, o.__qualname__)
+            if 'ext:' + ext in REG:
+                self.havocked.append('ext:' + ext)
+                return self.call_contract(st, 'ext:' + ext, args, kwargs)
             if ext in EXTERNAL:
                 self.havocked.append('ext:' + ext)
                 return fresh(EXTERNAL[ext], ext.replace('.', '_'))
@@ -236,6 +241,9 @@ class Verifier(Engine):
             r = fresh('int', 'sum')          # a sum of lengths: some non-negative integer
             st.assume(r.t >= 0)
             return r
+        if name == 'open' and 'ext:io.open' in REG:
+            self.havocked.append('ext:io.open')
+            return self.call_contract(st, 'ext:io.open', args, kwargs)
         raise OutOfSubset('builtin %s' % name)
 
     def quant_genexp(self, st, name, g):
@@ -436,7 +444,7 @@ class Verifier(Engine):
         try:
             fn_node, _, _ = source.find_def(qual, 'setter' if setter else None)
         except BindingError:
-            if not (ctr.trusted and ctr.params):
+            if not (ctr.trusted and (ctr.params or key.startswith('ext:'))):
                 raise
         if fn_node is None:
             names = list(ctr.params)
@@ -826,10 +834,29 @@ class Verifier(Engine):
         b = st
         b.pc.append(z3.Not(c))
         if smt.feasible(a.pc):
+            self.refine_isinstance(a, s.test, True)
             outs += self.exec_block(a, s.body)
         if smt.feasible(b.pc):
+            self.refine_isinstance(b, s.test, False)
             outs += self.exec_block(b, s.orelse) if s.orelse else [Outcome('ok', b)]
         return outs
+
+    def refine_isinstance(self, st, test, truth):
+        """`if isinstance(x, C)` / `if not isinstance(x, C)`: in the branch where the test holds the local x is viewed
+        with static class C (its fields become readable); the path condition already carries the dynamic fact."""
+        if isinstance(test, ast.UnaryOp) and isinstance(test.op, ast.Not):
+            return self.refine_isinstance(st, test.operand, not truth)
+        if not truth or not (isinstance(test, ast.Call) and isinstance(test.func, ast.Name) and test.func.id == 'isinstance'
+                             and len(test.args) == 2 and isinstance(test.args[0], ast.Name)):
+            return
+        v = st.env.get(test.args[0].id)
+        cname = test.args[1].id if isinstance(test.args[1], ast.Name) else getattr(test.args[1], 'attr', None)
+        c = classes.get(cname) if cname else None
+        if isinstance(v, VRef) and c is not None:
+            cur = classes.get(v.cls) if v.cls else None
+            if cur is None or (issubclass(c, cur) and c is not cur):
+                st.env = dict(st.env)
+                st.env[test.args[0].id] = VRef(v.t, cname)
 
     def st_Assert(self, st, s):
         c = self.ev.truthy(st, self.ev.ev(st, s.test))
@@ -909,9 +936,37 @@ class Verifier(Engine):
                 raise OutOfSubset('del target')
         return outs + [Outcome('ok', st)]
 
+    def st_With(self, st, s):
+        """with <external resource> as name: the context expression is evaluated (its contract may raise), the body
+        runs, leaving the block releases the resource.  Only managers that never swallow exceptions are modelled
+        (files); __exit__ is assumed not to raise."""
+        outs = []
+        for it in s.items:
+            v = self.ev.ev(st, it.context_expr)
+            outs += self.split_pend(st)
+            if not isinstance(v, (VAny, VRef)) or (isinstance(v, VRef) and v.cls is not None):
+                raise OutOfSubset('with statement over %s' % kind_of(v))
+            if it.optional_vars is not None:
+                self.assign(st, it.optional_vars, v)
+        return outs + self.exec_block(st, s.body)
+
     def st_Try(self, st, s):
         if s.finalbody:
-            raise OutOfSubset('try/finally')
+            # try/finally: the final block runs after every way of leaving the rest; unless it leaves differently
+            # itself (raise / return / break), the original outcome continues
+            import copy
+            inner = copy.copy(s)
+            inner.finalbody = []
+            res = []
+            first = self.st_Try(st, inner) if (s.handlers or s.orelse) else self.exec_block(st, s.body)
+            for o in first:
+                o.st.pend = []
+                for f in self.exec_block(o.st, s.finalbody):
+                    if f.kind == 'ok':
+                        res.append(Outcome(o.kind, f.st, val=o.val, exc=o.exc, site=o.site))
+                    else:
+                        res.append(f)
+            return res
         outs = []
         for o in self.exec_block(st, s.body):
             if o.kind == 'exc':
